@@ -4,8 +4,8 @@ package main
 
 import (
 	"fmt"
-	"regexp"
 	"go/types"
+	"regexp"
 	"strings"
 
 	"golang.org/x/tools/go/ssa"
@@ -281,7 +281,6 @@ func (te *TypeEnv) typeFacts(t types.Type, v *Term, alloc *Term, depth int) *Ter
 }
 
 func strLen(s *Term) *Term { return mkApp("str.len", sortInt, s) }
-
 
 func wfSliceT(s *Term) *Term {
 	return mkAnd(
